@@ -90,6 +90,10 @@ class C15(Prop):
             rows = []
             for _ in range(rng.randint(2, 6)):
                 rows.append([gen.oid_text(base + tuple(rng.choice([0, 127, 128, 16383, 16384, 2**21 - 1, 2**21, 2**28 - 1, 2**28, 2**32 - 1, rng.randrange(2**32)]) for _ in range(rng.randint(1, 4)))), ["int", 1]])
+            if rng.random() < 0.4:
+                # names of 128+ content octets: the follow-up request needs long-form lengths around the name
+                for _ in range(rng.randint(1, 3)):
+                    rows.append([gen.oid_text(base + (rng.randrange(1, 9),) + tuple(rng.choice([2**32 - 1, 2**28, 127, 16384]) for _ in range(rng.choice([26, 30, 40, 60])))), ["int", 2]])
             agent["mib"] = rows
             ops.append({"id": 1, "s": 0, "op": "walk", "method": rng.choice(["getnext", "getbulk"]), "oid": "1.3.6.1", "limit": 20, "max_rep": rng.choice([1, 2])})
             if ops[0]["method"] == "getnext":
